@@ -288,16 +288,21 @@ fn c05_extra(rep: &mut Report, thorough: bool) {
         }
     }
     // ---- (2) real register files
-    let hosts: Vec<crate::c01::Host> = crate::c01::hosts().into_iter().filter(|h| ["anm12", "ecl07", "ecl08"].contains(&h.name)).collect();
+    let hosts: Vec<crate::c01::Host> = crate::c01::hosts().into_iter().filter(|h| ["anm12", "ecl06", "ecl07", "ecl08"].contains(&h.name)).collect();
+    // EoSD: arguments are registers by *value*; its two parameter registers I0 / F0 belong to the general-purpose
+    // list, so "not a parameter register of the enclosing sub" has to be checked against the sub's parameter list
+    let eosd_regs: BTreeSet<i32> = { let t = Table::from_core("th06".parse().unwrap(), truth::LanguageKey::Ecl, &[], true); t.regs_by_value.clone().unwrap_or_default() };
     let gp: BTreeMap<&str, Vec<i32>> = [
         ("anm12", vec![10000, 10001, 10002, 10003, 10008, 10009, 10004, 10005, 10006, 10007]),
+        ("ecl06", vec![-10001, -10002, -10003, -10004, -10009, -10010, -10011, -10012, -10005, -10006, -10007, -10008]),
         ("ecl07", vec![10000, 10001, 10002, 10003, 10012, 10013, 10014, 10015, 10004, 10005, 10006, 10007, 10008, 10009, 10010, 10011, 10072, 10074]),
         ("ecl08", vec![10000, 10001, 10002, 10003, 10004, 10005, 10006, 10007, 10036, 10037, 10038, 10039, 10016, 10017, 10018, 10019, 10020, 10021, 10022, 10023, 10094, 10095]),
     ].into_iter().collect();
     let (cases2, _) = gen_cases(&table, if thorough { 3 } else { 2 }, 2, 2, 300_000);
     for host in &hosts {
         let um = host.user_mapfile();
-        let param_sets: Vec<&str> = if host.tool.kind == drive::Kind::Ecl { vec!["", "int pa", "int pa, float px", "int pa, int pb, float px, float py", "int pa, int pb, int pc, int pd, float px, float py, float pz, float pw"] } else { vec![""] };
+        let param_sets: Vec<&str> = if host.name == "ecl06" { vec!["", "int", "float", "int, float", "float, int", "int pa", "float px", "int pa, float px", "int, float px"] }
+            else if host.tool.kind == drive::Kind::Ecl { vec!["", "int pa", "int", "int pa, float px", "int, float", "int pa, int pb, float px, float py", "int, int, float, float", "int pa, int pb, int pc, int pd, float px, float py, float pz, float pw"] } else { vec![""] };
         let items: Vec<(usize, usize)> = (0..cases2.len()).flat_map(|c| (0..param_sets.len()).map(move |p| (c, p))).collect();
         let (ints, floats) = host.regs.unwrap();
         let name_to_reg: BTreeMap<i32, i32> = [(R_A, ints[0]), (R_B, ints[1]), (R_C, ints[2]), (R_D, ints[3]), (R_P, ints[4]), (R_COUNT, ints[5]), (R_X, floats[0]), (R_Y, floats[1]), (R_R, floats[2]), (R_W, floats[3])].into_iter().collect();
@@ -316,7 +321,7 @@ fn c05_extra(rep: &mut Report, thorough: bool) {
         for (i, r) in results.into_iter().enumerate() {
             let Some(r) = r else { rep.cap_hit = Some(format!("wall cap in C05 real-register family ({})", host.name)); continue; };
             let Some((src, out)) = r else { continue; };
-            let (c, _) = items[i];
+            let (c, pidx) = items[i];
             rep.evaluations += 1; rep.states += 1;
             if let Some(p) = out.panic { rep.outcome(&format!("{}:panic", host.name)); rep.fail(format!("C05:{}:{}", host.name, p.signature()), json!({"family": "real", "host": host.name, "source": src, "panic": p.text})); continue; }
             let Some(bytes) = out.bytes else { rep.outcome(&format!("{}:rejected", host.name)); continue; };
@@ -328,9 +333,17 @@ fn c05_extra(rep: &mut Report, thorough: bool) {
             let mut used: BTreeSet<i32> = BTreeSet::new();
             for ins in &instrs {
                 for (k, w) in ins.args.chunks(4).enumerate() {
-                    if w.len() < 4 || k >= 16 || ins.param_mask >> k & 1 == 0 { continue; }
+                    if w.len() < 4 { continue; }
                     let raw = u32::from_le_bytes([w[0], w[1], w[2], w[3]]);
                     let as_int = raw as i32;
+                    if host.name == "ecl06" {
+                        // by value: an int dword equal to a register id, or a float dword that is integral and equal to one
+                        let f = f32::from_bits(raw);
+                        if eosd_regs.contains(&as_int) { used.insert(as_int); }
+                        else if f == f.round() && f.abs() < 1.0e6 && f != 0.0 && eosd_regs.contains(&(f as i32)) { used.insert(f as i32); }
+                        continue;
+                    }
+                    if k >= 16 || ins.param_mask >> k & 1 == 0 { continue; }
                     let id = if (9000..11000).contains(&as_int) { as_int } else { f32::from_bits(raw) as i32 };
                     used.insert(id);
                 }
@@ -339,7 +352,12 @@ fn c05_extra(rep: &mut Report, thorough: bool) {
             let picked: Vec<i32> = used.iter().copied().filter(|r| !mentioned.contains(r)).collect();
             rep.traces_validated += 1;
             if !picked.is_empty() { rep.nontrivial += 1; }
-            let bad: Vec<i32> = picked.iter().copied().filter(|r| !gp[host.name].contains(r)).collect();
+            // parameter registers of this sub (EoSD: I0 for an int parameter, F0 for a float parameter, named or not)
+            let param_regs: Vec<i32> = if host.name == "ecl06" {
+                let ps = param_sets[pidx];
+                let mut v = vec![]; if ps.contains("int") { v.push(-10001); } if ps.contains("float") { v.push(-10005); } v
+            } else { vec![] };
+            let bad: Vec<i32> = picked.iter().copied().filter(|r| !gp[host.name].contains(r) || param_regs.contains(r)).collect();
             if bad.is_empty() { rep.outcome(&format!("{}:ok", host.name)); }
             else { rep.outcome(&format!("{}:SCRATCH-OUTSIDE-GP", host.name)); rep.fail(format!("C05:{}:scratch-outside-general-purpose-set:{}", host.name, cases2[c].body), json!({"family": "real", "host": host.name, "source": src, "picked": picked, "not_gp": bad})); }
         }
